@@ -149,6 +149,10 @@ package transform
 //@   ensures [err-zoom] !(1 <= outputHZoom && outputHZoom <= 31 && 0 <= outputVZoom && outputVZoom <= 35) ==> r1 != nil && len(r0) == 0
 //@   ensures [err-height-order] maxHeight < minHeight && len(extendedSpatialIDs) > 0 ==> r1 != nil
 //@   ensures [err-malformed] (exists k :: 0 <= k && k < len(extendedSpatialIDs) && !isext(extendedSpatialIDs[k])) ==> r1 != nil
+//@   -- every returned group carries the request's output zooms and height range unchanged
+//@   ensures [group-parameters] r1 == nil ==> (forall g :: 0 <= g && g < len(r0) ==> r0[g] != nil && r0[g].quadkeyZoom == outputHZoom && r0[g].vZoom == outputVZoom && r0[g].maxHeight == maxHeight && r0[g].minHeight == minHeight)
+//@   loopframe
+//@   loop 0 invariant forall g :: 0 <= g && g < len(extendedSpatialIDToQuadkeyAndVerticalID) ==> extendedSpatialIDToQuadkeyAndVerticalID[g] != nil && extendedSpatialIDToQuadkeyAndVerticalID[g].quadkeyZoom == outputHZoom && extendedSpatialIDToQuadkeyAndVerticalID[g].vZoom == outputVZoom && extendedSpatialIDToQuadkeyAndVerticalID[g].maxHeight == maxHeight && extendedSpatialIDToQuadkeyAndVerticalID[g].minHeight == minHeight
 //@   loop 0 invariant (maxHeight < minHeight ==> $i == 0) && (forall k :: 0 <= k && k < $i ==> isext(extendedSpatialIDs[k]))
 //@   loop 1 invariant len(indexesInt) == $i && (forall k :: 0 <= k && k < $i && k < 6 ==> isnum(fld(spatialID, k)))
 //@ end
@@ -379,6 +383,9 @@ package transform
 //@   requires offok(zBaseOffset) && 0 <= zBaseExponent && zBaseExponent <= 35
 //@   ensures [err-zoom] !(1 <= outputQuadkeyZoom && outputQuadkeyZoom <= 31 && 0 <= outputAltitudekeyZoom && outputAltitudekeyZoom <= 35) ==> r1 != nil && len(r0) == 0
 //@   ensures [err-malformed] (exists k :: 0 <= k && k < len(extendedSpatialIDs) && !isext(extendedSpatialIDs[k])) && (1 <= outputQuadkeyZoom && outputQuadkeyZoom <= 31 && 0 <= outputAltitudekeyZoom && outputAltitudekeyZoom <= 35) ==> r1 != nil
+//@   ensures [group-parameters] r1 == nil ==> (forall g :: 0 <= g && g < len(r0) ==> r0[g] != nil && r0[g].quadkeyZoom == outputQuadkeyZoom && r0[g].altitudekeyZoom == outputAltitudekeyZoom && r0[g].zBaseExponent == zBaseExponent && r0[g].zBaseOffset == zBaseOffset)
+//@   loopframe
+//@   loop 0 invariant forall g :: 0 <= g && g < len(extendedSpatialIDToQuadkeyAndAltitudekey) ==> extendedSpatialIDToQuadkeyAndAltitudekey[g] != nil && extendedSpatialIDToQuadkeyAndAltitudekey[g].quadkeyZoom == outputQuadkeyZoom && extendedSpatialIDToQuadkeyAndAltitudekey[g].altitudekeyZoom == outputAltitudekeyZoom && extendedSpatialIDToQuadkeyAndAltitudekey[g].zBaseExponent == zBaseExponent && extendedSpatialIDToQuadkeyAndAltitudekey[g].zBaseOffset == zBaseOffset
 //@   loop 0 invariant forall k :: 0 <= k && k < $i ==> isext(extendedSpatialIDs[k])
 //@ end
 
